@@ -21,6 +21,7 @@ def check(run, tier):
     traces += E.random_histories(run, n, m, common.SEED, genkw={"weights": w, "users": ("alice", "bob")},
                                  batch_p=0.8)
     traces += injected_failures(run, quick)
+    traces += attr_then_commit(run, quick)
     traces += over_connections(run, quick)
     E.judge(run, traces, only=ONLY, name="c08")
     E.summarise(run, traces)
@@ -82,6 +83,80 @@ def injected_failures(run, quick):
                 finally:
                     drv.close()
     run.extra["injected_internal_errors"] = k
+    return traces
+
+
+ATTR_VALUES = {
+    "Name": ["n2", "n1", "fresh"], "Object Group": ["og2", "og1", "fresh"],
+    "Application Specific Information": [["ns", "d2"], ["ns", "d1"], ["zz", "zz"]],
+    "Sensitive": [True, False], "Operation Policy Name": ["public", "default"], "Cryptographic Usage Mask": [["SIGN"], ["ENCRYPT"]],
+    "State": ["Active"], "Cryptographic Length": [256, 128], "Cryptographic Algorithm": ["AES"], "Initial Date": [5],
+    "Object Type": ["SecretData"], "Unique Identifier": ["77"], "Contact Information": ["me"], "x-custom": ["zz"]}
+
+
+def _attr_batches(args):
+    """[attribute operation on object 1, committing operation on object 2] with Continue: whatever the first item answers,
+    a failed first item must leave nothing for the second item's commit to flush."""
+    from .. import engdrv as D, engtrace as T
+    wid, variants = args
+    common.scratch()
+    out = []
+    drv = D.EngineDriver(intern=E.new_interner())
+    try:
+        mk = {"otype": "SymmetricKey", "attrs": [
+            {"name": "Cryptographic Algorithm", "v": "AES"}, {"name": "Cryptographic Length", "v": 128},
+            {"name": "Cryptographic Usage Mask", "v": ["ENCRYPT"]}, {"name": "Name", "idx": 0, "v": "n1"},
+            {"name": "Name", "idx": 1, "v": "n2"}, {"name": "Object Group", "idx": 0, "v": "og1"},
+            {"name": "Object Group", "idx": 1, "v": "og2"},
+            {"name": "Application Specific Information", "idx": 0, "v": ["ns", "d1"]},
+            {"name": "Application Specific Information", "idx": 1, "v": ["ns", "d2"]}]}
+        for _ in range(2):
+            drv.request(D.one("Create", mk))
+        snap = drv.db + ".attr"
+        drv.snapshot(snap)
+        for k, (ver, item, second) in enumerate(variants):
+            drv.load_snapshot(snap)
+            rec = T.Recorder(drv, "ab%d-%d" % (wid, k))
+            try:
+                rec.request({"user": "alice", "groups": None, "ver": list(ver), "opt": "Continue",
+                             "items": [dict(item, bid="a"), dict(second, bid="b")]})
+            except ValueError:
+                rec.close()
+                continue          # a request the library cannot encode under this version (custom names under 2.0)
+            rec.request(D.one("GetAttributes", {"uid": 1, "names": []}, ver=ver))
+            rec.close()
+            tr = rec.trace()
+            tr["raw"] = rec.raw
+            out.append(tr)
+    finally:
+        drv.close()
+    return out
+
+
+def attr_then_commit(run, quick):
+    import multiprocessing
+    variants = []
+    seconds = [{"op": "Activate", "p": {"uid": 2}}, {"op": "ModifyAttribute", "p": {"uid": 2, "attr": {"name": "Name", "idx": 0, "v": "other"}}}]
+    for name, vals in ATTR_VALUES.items():
+        for v in vals:
+            for idx in (-1, 0, 1, 2):
+                variants.append(((1, 2), {"op": "ModifyAttribute", "p": {"uid": 1, "attr": {"name": name, "idx": idx, "v": v}}}, seconds[0]))
+            for cur in (None, vals[0], vals[-1]):
+                variants.append(((2, 0), {"op": "ModifyAttribute", "p": {"uid": 1, "cur": None if cur is None else {"name": name, "v": cur},
+                                                                       "new": {"name": name, "v": v}}},
+                                 {"op": "Activate", "p": {"uid": 2}}))
+            variants.append(((2, 0), {"op": "SetAttribute", "p": {"uid": 1, "new": {"name": name, "v": v}}}, seconds[0]))
+            variants.append(((2, 0), {"op": "DeleteAttribute", "p": {"uid": 1, "cur": {"name": name, "v": v}, "ref": None}}, seconds[0]))
+        for idx in (-1, 0, 1, 2):
+            variants.append(((1, 2), {"op": "DeleteAttribute", "p": {"uid": 1, "name": name, "idx": idx}}, seconds[0]))
+        variants.append(((2, 0), {"op": "DeleteAttribute", "p": {"uid": 1, "cur": None, "ref": name}}, seconds[0]))
+    if not quick:
+        variants += [(v, it, seconds[1] if v < (2, 0) else sec) for (v, it, sec) in variants]
+    n = common.NCPU
+    with multiprocessing.Pool(n) as pool:
+        outs = pool.map(_attr_batches, [(i, variants[i::n]) for i in range(n)])
+    traces = [t for o in outs for t in o]
+    run.extra["attribute_operation_then_commit_batches"] = len(traces)
     return traces
 
 
